@@ -9,7 +9,7 @@
       templates of RenderOut.v, whose identifier tokens are audited below ([template_audit]): each is a
       keyword, a segment of an absolute `::core` path / a method or associated-item name reached through
       one, or reserved. *)
-From DX Require Import Syntax Tables Render GenBound GenAttrs IR GenType GenCmp GenImpl GenTop RenderOut LemDump LemClosed LemClosedGen LemClosedHdr LemClosedHdrGen.
+From DX Require Import Syntax Tables Render GenBound GenAttrs IR GenType GenCmp GenImpl GenTop RenderOut LemDump LemClosed LemClosedGen LemClosedHdr LemClosedHdrGen LemBinders.
 
 Theorem C13_binders_reserved :
   forall prefix m, reserved prefix = true -> reserved (make_ident prefix m) = true.
@@ -178,6 +178,18 @@ Proof.
   split; [now apply Ok_hdr|]. split; [now apply Ok_body | now apply Ok_eq_checker].
 Qed.
 
+(** ** bindings of distinct fields are distinct (LemBinders.v)
+
+    Bindings are numbered by field position (fix 0085919); decimal printing is injective, so the bindings the patterns
+    of one struct / variant introduce are pairwise distinct, whatever the fields are called. *)
+Theorem C13_bindings_of_distinct_positions_differ :
+  forall prefix i j, make_ident prefix (MIndex i) = make_ident prefix (MIndex j) -> i = j.
+Proof. exact make_ident_index_inj. Qed.
+
+Theorem C13_bindings_of_one_variant_are_distinct :
+  forall prefix (fs : list fld), NoDup (map fl_index fs) -> NoDup (binders prefix fs).
+Proof. exact binders_nodup. Qed.
+
 Definition user_name (s : string) : bool :=      (* the sentinel names of the skeletons below *)
   str_mem s ["U"; "u"; "V"; "w"].
 
@@ -260,3 +272,5 @@ Print Assumptions C13_struct_header_pieces_come_from_the_item.
 Print Assumptions C13_struct_impl_tokens.
 Print Assumptions C13_enum_header_pieces_come_from_the_item.
 Print Assumptions C13_enum_impl_tokens.
+Print Assumptions C13_bindings_of_distinct_positions_differ.
+Print Assumptions C13_bindings_of_one_variant_are_distinct.
